@@ -143,6 +143,76 @@ impl ErrorQueue for Dev {
 }
 impl ScpiDevice for Dev {}
 
+/// A plain IEEE 488.2 device (no SCPI status model): keeps the trait's PROVIDED `stb()`.
+pub struct PlainDev {
+    pub esr: u8,
+    pub ese: u8,
+    pub sre: u8,
+}
+impl Device for PlainDev {
+    fn handle_error(&mut self, err: Error) {
+        self.esr |= err.esr_mask();
+    }
+}
+impl IEEE4882 for PlainDev {
+    fn sre(&self) -> u8 {
+        self.sre
+    }
+    fn set_sre(&mut self, value: u8) {
+        self.sre = value
+    }
+    fn esr(&self) -> u8 {
+        self.esr
+    }
+    fn set_esr(&mut self, value: u8) {
+        self.esr = value
+    }
+    fn ese(&self) -> u8 {
+        self.ese
+    }
+    fn set_ese(&mut self, value: u8) {
+        self.ese = value
+    }
+    fn tst(&mut self) -> Result<()> {
+        Ok(())
+    }
+    fn rst(&mut self) -> Result<()> {
+        Ok(())
+    }
+    fn cls(&mut self) -> Result<()> {
+        self.esr = 0;
+        Ok(())
+    }
+    fn opc(&mut self) -> Result<()> {
+        self.esr |= 1;
+        Ok(())
+    }
+}
+pub const PLAIN_TREE: Node<PlainDev> = Root![ieee488_stb!(), ieee488_ese!(), ieee488_sre!(), ieee488_esr!()];
+
+/// `*STB?` on the plain device for a grid of register values and both values of the message-available flag
+fn plain_stb_rows(out: &mut Out) {
+    for esr in [0u8, 1, 4, 32, 33, 128, 255] {
+        for ese in [0u8, 1, 32, 36, 128, 255] {
+            for sre in [0u8, 4, 16, 32, 48, 64, 191, 255] {
+                for mav in [false, true] {
+                    let mut d = PlainDev { esr, ese, sre };
+                    let mut ctx = Context::default();
+                    ctx.mav = mav;
+                    let mut buf: Vec<u8> = Vec::new();
+                    let r = catch(std::panic::AssertUnwindSafe(|| PLAIN_TREE.run(b"*STB?", &mut d, &mut ctx, &mut buf)));
+                    let stb: i64 = match r {
+                        Ok(Ok(())) => std::str::from_utf8(&buf).ok().and_then(|s| s.trim().parse::<i64>().ok()).unwrap_or(-1),
+                        _ => -2,
+                    };
+                    out.put(&json!({"ev": "plainstb", "esr": esr, "ese": ese, "sre": sre, "mav": mav, "stb": stb,
+                                    "same": d.esr == esr && d.ese == ese && d.sre == sre}));
+                }
+            }
+        }
+    }
+}
+
 /// `FAIL <code>,<ext>`: a handler that raises exactly that error (event and query form).
 struct FailCmd;
 impl Command<Dev> for FailCmd {
@@ -642,6 +712,9 @@ pub fn record_trace(args: &[String]) -> i32 {
     let mix = arg_value(args, "--mix").unwrap_or("all".into());
     let mut out = Out::new(&arg_value(args, "--out").unwrap_or("-".into()));
     let mut rng = Rng::new(seed ^ 0x5747);
+    if mix == "c16" || mix == "all" {
+        plain_stb_rows(&mut out);
+    }
     let caps = [0usize, 4, 2, 16];
     let codes: [i64; 20] = [-100, -113, -200, -222, -300, -350, -400, -410, -500, -600, -700, -800, 1, 7, 32767, -32768, -190, -227, -450, -50];
     let mk = |op: &str, r: &str, v: i64, k: &str, c: i64, x: i64| json!({"op": op, "r": r, "v": v, "k": k, "code": c, "ext": x});
@@ -654,7 +727,8 @@ pub fn record_trace(args: &[String]) -> i32 {
             let r = *rng.pick(&regs);
             // device-side condition change
             let devp = match mix.as_str() { "c15" => 35, "c16" => 15, "c13" => 3, _ => 18 };
-            if rng.below(100) < devp {
+            let in_burst = cap == 0 && (mix == "c13" || mix == "c16") && n >= 600 && (39..310).contains(&it);
+            if !in_burst && rng.below(100) < devp {
                 let v = rand16(&mut rng);
                 let op = *rng.pick(&["setcond", "setcond", "setbits", "clrbits"]);
                 let u = mk(op, r, v, "", 0, 0);
@@ -677,9 +751,13 @@ pub fn record_trace(args: &[String]) -> i32 {
                 }
             }
             // an unbounded queue filled beyond 255 unread items, then counted, read and drained (C13: COUNt? is not an 8-bit number)
-            if cap == 0 && mix == "c13" && n >= 600 && (40..310).contains(&it) {
+            if in_burst {
                 units = match it {
-                    40..=299 => vec![mk("fail", "", 0, "", codes[(it % 7) as usize], (it % 3) as i64)],
+                    39 => vec![mk("cls", "", 0, "", 0, 0), mk("sre", "", 4, "", 0, 0)],
+                    40..=294 => vec![mk("fail", "", 0, "", codes[(it % 7) as usize], (it % 3) as i64)],      // 255 unread items
+                    295 => vec![mk("stbq", "", 0, "", 0, 0), mk("fail", "", 0, "", -113, 0)],                 // ... 256
+                    296 => vec![mk("stbq", "", 0, "", 0, 0), mk("countq", "", 0, "", 0, 0)],                  // read with exactly 256 unread
+                    297..=299 => vec![mk("fail", "", 0, "", -222, 0)],
                     300 | 303 | 306 => vec![mk("countq", "", 0, "", 0, 0)],
                     301 | 302 | 304 => vec![mk("errq", "", 0, "", 0, 0)],
                     305 => vec![mk("esrq", "", 0, "", 0, 0), mk("countq", "", 0, "", 0, 0)],
